@@ -19,15 +19,19 @@ Checked per case (statement of C03):
   reeval     sum of the penalised savings of the reported anomalies == final score
   ignore     (classes) ignore_point_anomalies=True gives the same intervals minus exactly the point anomalies
 
-One defect = one key.  A failing case is attributed by observable evidence only (the oracle decides THAT it fails):
-  first wrong prefix T < m                                           -> run_base_capa:early-point-anomaly
-  first wrong prefix T >= m, score too low, an optimal option WAS evaluated (the savings log their queries) and p >= 2
-                                                                     -> penalise_savings:alpha-per-component
-  first wrong prefix T >= m, score too low, no optimal start was evaluated at T (it had been pruned)
-                                                                     -> run_base_capa:pruning
-  a reported point anomaly is not (i,i+1) (or MVCAPA raises because of it) -> get_anomalies:point-anomaly-interval
-  a reported collective anomaly (s,e) with score[e]-score[s] != its penalised saving while penalties cannot be the cause
-  (p == 1 or all scores right), or with a length outside [m,M]           -> optimise_savings:opt-start
+One defect = one key.  The oracle decides THAT a case fails; the key is then chosen from observable evidence (every
+saving object logs the intervals the detector asks it about):
+  first wrong prefix T < m and the point saving of sample T-1 was never asked for   -> run_base_capa:early-point-anomaly
+  first wrong prefix T, score too low, an optimal last anomaly WAS evaluated, p >= 2, alpha > 0, equal betas, and the
+  number is what charging alpha once per component gives                           -> penalise_savings:alpha-per-component
+  first wrong prefix T >= m, score too low, no optimal start was evaluated at T, and for the true values the pruning
+  test G(s)+PS(s,W)+alpha+sum(betas) < G(W) holds at some W with T-W < m           -> run_base_capa:pruning
+     (if it holds only for the per-component-alpha values: penalise_savings:alpha-per-component)
+  a reported point anomaly is not (i,i+1), or MVCAPA raises because of it          -> get_anomalies:point-anomaly-interval
+  re-evaluation differs from the final score (or a length is outside [m,M]) and a reported collective anomaly (s,e) has
+  score[e]-score[s] != its penalised saving while penalisation cannot be the cause (p == 1 or all scores right)
+                                                                                   -> optimise_savings:opt-start
+  (classes) ignore_point_anomalies output differs                                  -> CAPA|MVCAPA:ignore_point_anomalies
 Symptoms that are consequences of an attributed defect in the same case are not reported again; a failing case that
 no rule explains is reported under `unexplained:<symptom>` so that nothing is lost.
 """
@@ -259,17 +263,17 @@ def execute(case, ignore=False):
     from skchange.anomaly_detectors import mvcapa as mv_mod
     api, n, p, m, M, pen = case["api"], case["n"], case["p"], case["m"], case["M"], case["pen"]
     X, cs, ps = make_savings(case, raw_cost=api in ("CAPA", "MVCAPA"))
-    out = {"err": None, "tb": [], "log": None, "pens": None, "scores": None, "coll": [], "point": [], "comps": {}}
+    out = {"err": None, "tb": [], "log": None, "plog": None, "pens": None, "scores": None, "coll": [], "point": [], "comps": {}}
     try:
         if api == "run_base_capa":
             out["pens"] = (pen["ca"], pen["cb"], pen["pa"], pen["pb"])
             cs.fit(X), ps.fit(X)
-            out["log"] = attach_log(cs)
+            out["log"], out["plog"] = attach_log(cs), attach_log(ps)
             r = mv_mod.run_base_capa(cs, ps, pen["ca"], np.asarray(pen["cb"], dtype=float), pen["pa"],
                                      np.asarray(pen["pb"], dtype=float), m, M)
         elif api == "run_capa":
             out["pens"] = (pen["ca"], [0.0], pen["pa"], [0.0])
-            out["log"] = attach_log(cs)
+            out["log"], out["plog"] = attach_log(cs), attach_log(ps)
             r = capa_mod.run_capa(X, cs, ps, pen["ca"], pen["pa"], m, M)
         elif api in ("run_mvcapa", "MVCAPA"):
             cpen = user_penalty(pen["cpen"]) if isinstance(pen["cpen"], dict) else pen["cpen"]
@@ -284,7 +288,7 @@ def execute(case, ignore=False):
             ca, cb = resolve_mv_penalty(pen["cpen"], n, p, sav_c.get_param_size(1), pen["cscale"])
             pa, pb = resolve_mv_penalty(pen["ppen"], n, p, sav_p.get_param_size(1), pen["pscale"])
             out["pens"] = (ca, cb, pa, pb)
-            out["log"] = attach_log(sav_c)
+            out["log"], out["plog"] = attach_log(sav_c), attach_log(sav_p)
             if api == "run_mvcapa":
                 r = mv_mod.run_mvcapa(X, cs, ps, cpen, pen["cscale"], ppen, pen["pscale"], m, M)
             else:
@@ -299,7 +303,7 @@ def execute(case, ignore=False):
             det = CAPA(collective_saving=cs, point_saving=ps, collective_penalty_scale=pen["cscale"],
                        point_penalty_scale=pen["pscale"], min_segment_length=m, max_segment_length=M,
                        ignore_point_anomalies=ignore)
-            out["log"] = attach_log(det._collective_saving)
+            out["log"], out["plog"] = attach_log(det._collective_saving), attach_log(det._point_saving)
             df = pd.DataFrame(X)
             det.fit(df)
             out["pens"] = (float(det.collective_penalty_), [0.0], float(det.point_penalty_), [0.0])
@@ -328,6 +332,13 @@ def evaluated_starts(log, T):
     for cuts in log:
         got.update(int(s) for s, e in cuts if e == T)
     return got
+
+
+def pen9(v, alpha, betas):
+    """The value a penalisation that charges alpha once per component would give (equal betas).  Used ONLY to name a
+    failure that the oracle has already established: is the observed number explained by that mistake?"""
+    v = np.asarray(v, dtype=float)
+    return float(np.sum(np.maximum(v - betas[0], 0.0) - alpha))
 
 
 def per_component_possible(alpha, betas, p):
@@ -393,7 +404,8 @@ def check_case(rec, case):
         T, got, want = first, float(scores[first - 1]), G[first]
         head = (f"{api} (n={n}, p={p}, m={m}, M={M}, {pens_txt}): score of the prefix of length {T} is {got:g}, "
                 f"the optimum over admissible anomaly sets is {want:g}")
-        if T < m:
+        pev = evaluated_starts(out["plog"], T)
+        if T < m and not pev:
             found.append((K_EARLY, head + f" (the point anomaly at {T - 1} alone saves {psp(T - 1):g}); prefixes shorter than "
                           "min_segment_length are never scored, so point anomalies among the first m-1 samples are never considered",
                           "C03.score"))
@@ -407,17 +419,20 @@ def check_case(rec, case):
             if opt_point or seen:
                 which = f"the point anomaly at {T - 1} (savings {np.asarray(Sp(T - 1)).tolist()}, penalised {psp(T - 1):g})" if opt_point \
                     else f"the collective anomaly [{seen[0]},{T}) (savings {np.asarray(Sc(seen[0], T)).tolist()}, penalised {psc(seen[0], T):g})"
-                if per_component_possible(pa, pb, p) if opt_point else per_component_possible(ca, cb, p):
+                low = G[T - 1] + pen9(Sp(T - 1), pa, pb) if opt_point else G[seen[0]] + pen9(Sc(seen[0], T), ca, cb)
+                if (per_component_possible(pa, pb, p) if opt_point else per_component_possible(ca, cb, p)) and got >= low - 1e-7:
                     found.append((K_ALPHA, head + f"; the optimal last anomaly is {which} and it was evaluated, so its penalised "
                                   "saving was computed too low (constant penalty charged once per component instead of once)",
                                   "C03.score"))
+                elif T < m:
+                    loose.append(("short-prefix-score", head, "C03.score"))
                 else:
                     loose.append(("score-below-optimum-evaluated", head + f"; optimal last anomaly {which} was evaluated", "C03.score"))
             else:
                 # with the TRUE values: a time W at which the documented pruning test G(s)+PS(s,W)+alpha+sum(betas) < G(W) holds
                 wit = [(s, W) for s in opt_starts for W in range(s + m, T)
                        if G[s] + psc(s, W) + ca + float(np.sum(cb)) < G[W] - TIE]
-                tail = (f"; every optimal last anomaly starts in {opt_starts} but at end {T} only the starts {sorted(ev)} were "
+                tail = (f"; every optimal last anomaly starts in {opt_starts} but at end {T} only the starts {sorted(ev or [])} were "
                         "evaluated")
                 if wit:
                     s, W = wit[-1]
@@ -425,7 +440,8 @@ def check_case(rec, case):
                                   f"(G({s})+PS({s},{W})+penalties = {G[s] + psc(s, W) + ca + float(np.sum(cb)):g} < G({W}) = {G[W]:g}) "
                                   f"although [{W},{T}) is shorter than min_segment_length, so the test does not bound G({T})",
                                   "C03.score"))
-                elif per_component_possible(ca, cb, p):
+                elif per_component_possible(ca, cb, p) and any(
+                        G[s] + pen9(Sc(s, W), ca, cb) + ca + float(np.sum(cb)) < G[W] - TIE for s in opt_starts for W in range(s + m, T)):
                     found.append((K_ALPHA, head + tail + ": the optimal start was pruned although the pruning test does not hold for "
                                   "the true penalised savings (they were computed too low: constant penalty charged once per "
                                   "component)", "C03.score"))
@@ -456,8 +472,7 @@ def check_case(rec, case):
     if bad_len or not reeval_ok:
         sym = (f"{api} (n={n}, p={p}, m={m}, M={M}, {pens_txt}): reported collective {coll} point {point}, final score {sc(n):g}, "
                f"re-evaluated total {total:g}")
-        too_long = [a for a in bad_len if a[1] - a[0] > M and 0 <= a[0] < a[1] <= n]
-        culprit = (too_long or ([] if p >= 2 and first is not None else local_bad) or [None])[0]
+        culprit = (([] if p >= 2 and first is not None else local_bad) or [None])[0]
         if culprit is not None:
             s, e = culprit
             ev = evaluated_starts(out["log"], e)
